@@ -4,3 +4,5 @@ import GqlProofs.Props.C04
 import GqlProofs.Props.C12
 import GqlProofs.Props.C13
 import GqlProofs.Props.C16
+import GqlProofs.Props.C15
+import GqlProofs.Props.C14
